@@ -351,10 +351,14 @@ def main(argv=None):
         print('KNOWN-FINDING: property=%s %s' % (prop, entry['what']))
     for u, n, d in stale:
         print('NOTE stale-known-finding-candidate unit=%s obligation=%s (%s) now passes' % (u, n, d))
+    grouped = {}
     for u, reason, detail in undecided:
-        print('UNDECIDED property=%s unit=%s reason=%s' % (prop, u, reason))
-        for ln in str(detail).strip().split('\n')[-12:]:
-            print('    ' + ln)
+        grouped.setdefault((u, reason), []).append(detail)
+    for (u, reason), details in grouped.items():
+        print('UNDECIDED property=%s unit=%s reason=%s%s' % (prop, u, reason, ' (%d obligations)' % len(details) if len(details) > 1 else ''))
+        for detail in details[:3]:
+            for ln in str(detail).strip().split('\n')[-12:]:
+                print('    ' + ln)
         if rc == 0:
             rc = 2
     wall = time.time() - t0
